@@ -767,6 +767,11 @@ def _enum_locks(tier):
       for a in progs:
         for b in progs:
           yield {"scn": "d", "hub": hub, "p": {"locks": 1, "tasks": [a, b]}, "sched": {"on": "win", "base": 0, "devs": []}}
+    progs2t = [list(x) for x in itertools.product(_D_OPS1, repeat=2)]
+    for a in progs2t:
+      for b in progs2t:
+        for c in progs2t:
+          yield {"scn": "d", "hub": False, "p": {"locks": 1, "tasks": [a, b, c]}, "sched": {"on": "win", "base": 0, "devs": []}}
     if tier == "thorough":
       for a in progs:
         for b in progs:
@@ -781,9 +786,9 @@ def _enum_locks(tier):
 
 # --------------------------------------------------------------------------- random cases
 
-def _s_sched(maxgap):
+def _s_sched(maxgap, op=False):
   return st.fixed_dictionaries({
-    "on": st.sampled_from(["all", "all", "win"]),
+    "on": st.just("op") if op else st.sampled_from(["all", "all", "win"]),
     "base": st.integers(0, 1),
     "gaps": st.lists(st.tuples(st.integers(0, maxgap), st.integers(1, 3)).map(list), min_size=0, max_size=8),
   })
@@ -803,18 +808,28 @@ def _strategy(tier):
     pd = st.fixed_dictionaries({"locks": st.integers(1, 2),
                                 "tasks": st.lists(st.lists(dop, min_size=1, max_size=8 if big else 6), min_size=2, max_size=4)})
 
-    def case(scn, p, maxgap):
-      return st.fixed_dictionaries({"scn": st.just(scn), "hub": st.booleans(), "p": p, "sched": _s_sched(maxgap)})
+    def case(scn, p, maxgap, op=False):
+      return st.fixed_dictionaries({"scn": st.just(scn), "hub": st.booleans(), "p": p, "sched": _s_sched(maxgap, op)})
     return st.one_of(case("a", pa, 60), case("a", pa, 25), case("b", pb, 50), case("b", pb, 20), case("c", pc, 50),
-                     case("c", pc, 20), case("d", pd, 40))
+                     case("c", pc, 20), case("d", pd, 40), case("a", pa, 150, True), case("b", pb, 120, True))
   return s
 
 
+def _enum_nondefault(tier):
+  """The scheduler under test is not the process-wide default scheduler (another running one is)."""
+  def gen():
+    for scn, p in [("a", {"threads": [["cl"], ["co"]]}), ("a", {"threads": [["cl", "rl"]]}),
+                   ("b", {"wakers": [1], "inthread": 1}), ("c", {"tasks": [2], "threads": [[1]]})]:
+      for hub in (True, False):
+        for base in (0, 1):
+          for c in _dev_cases(scn, p, hub, base, 1 if scn != "c" else 0, cfg="nondefault"):
+            yield c
+  return gen
+
+
 def plan(tier):
-  if tier == "quick":
-    return [Enum("sched-deviations", _enum_sched(tier), shards=16),
-            Enum("lock-programs", _enum_locks(tier), shards=16),
-            Hyp("random-schedules", _strategy(tier), examples=1600, shards=16)]
+  n = 1600 if tier == "quick" else 40000
   return [Enum("sched-deviations", _enum_sched(tier), shards=16),
           Enum("lock-programs", _enum_locks(tier), shards=16),
-          Hyp("random-schedules", _strategy(tier), examples=40000, shards=16)]
+          Enum("nondefault-scheduler", _enum_nondefault(tier), shards=8),
+          Hyp("random-schedules", _strategy(tier), examples=n, shards=16)]
